@@ -60,12 +60,17 @@ package shared
 //@   ensures  result == nil ==> nemitted == old(nemitted) && packer.currentChunk == old(packer.currentChunk)
 //@   ensures  old(packer.currentChunk) != nil ==> result != nil
 
-// chunk IDs: the (timestamp, sequence) state strictly increases lexicographically with every call, so IDs are unique and
-// ordered as long as the ID is formatted from that state (it is formatted from the clock reading, which equals the state's
-// timestamp unless the wall clock stepped backwards — the clock assumption of C05/C11)
+// ==== chunk IDs (C05): recovery and retransmission order chunks by ID, so IDs must grow in creation order ==========================
+// The ID is formatted from a (timestamp, sequence) pair; idts / idseq: the pair last formatted (ghost, from fmt.Sprintf's
+// arguments). Representation invariant: the generator's (epochNano, sequence) is the pair of the last ID issued. Every
+// new pair is lexicographically greater than the last one, whatever the wall clock does (time.Now is arbitrary here).
+//@ pure func idts() int := as(fmtarg0, int64)
+//@ pure func idseq() int := as(fmtarg1, int32)
 //@ func (generator *chunkIDGenerator) Generate() string
-//@   requires generator != nil
-//@   modifies generator.epochNano, generator.sequence
-//@   ensures[ids-strictly-increase] (generator.epochNano > old(generator.epochNano) && generator.sequence == 0)
-//@        || (generator.epochNano == old(generator.epochNano) && generator.sequence == old(generator.sequence) + 1)
+//@   property C05
+//@   requires generator != nil && generator.sequence < 99999999 && generator.sequence >= 0 && generator.epochNano >= 0
+//@   modifies generator.epochNano, generator.sequence, generator.Mutex, fmtarg0, fmtarg1
+//@   ensures[id-is-the-generator-state] typeis(fmtarg0, int64) && typeis(fmtarg1, int32) && idts() == generator.epochNano && idseq() == generator.sequence
+//@   ensures[ids-grow-in-creation-order] generator.epochNano > old(generator.epochNano) || (generator.epochNano == old(generator.epochNano) && generator.sequence > old(generator.sequence))
+//@   ensures[sequence-fits-its-eight-digits] 0 <= generator.sequence && generator.sequence <= 99999999
 //@   canary ensures generator.epochNano > old(generator.epochNano)
